@@ -33,7 +33,7 @@ def build_overlay(m):
                 src = fh.read()
         if old not in src:
             return None
-        src = src.replace(old, new, 1)
+        src = src.replace(old, new) if (len(e) > 3 and e[3] == 0) else src.replace(old, new, 1)
         try:
             compile(src, rel, "exec")
         except SyntaxError as ex:
